@@ -25,6 +25,7 @@ RULE = ("Hypothesis-generated histories: a pool of 1-3 small configurations (sam
         "hash seed. One evaluation per compared instance. Non-trivial instance: >=2 other instances (>=1 of a different "
         "configuration) were created or stepped in the process before it finished; distinct = (history hash, instance).")
 ASSUMPTIONS = [
+    "instances built from SHARED input objects are used one after another (a live one is finished before the next is created): two live models stepping alternately over one mutable CO2 / field-management object are outside the property, which speaks of models built or run earlier; instances built from their own objects are interleaved freely",
     "thread-level interleaving is not explored (the library is single-threaded); the 'schedule' is the order of API calls, which the harness owns",
     "fresh interpreters are /venv/bin/python -m harness.solo started with PYTHONHASHSEED set to the generated value",
     "worker assignment is varied implicitly: histories are evaluated in 16 forked worker processes, each having run different earlier histories",
@@ -146,6 +147,14 @@ def evaluate(case):
     def create(i):
         try:
             if case.get("share"):
+                # shared input objects are used by one live model at a time (the property speaks of models built or run
+                # EARLIER): a live instance built from the same objects is run to its end before the next one is created
+                for j in list(models):
+                    if inst[j] == inst[i] and not models[j]._clock_struct.model_is_finished:
+                        g = 0
+                        while j in models and not models[j]._clock_struct.model_is_finished and g < 300:
+                            step(j, 500)
+                            g += 1
                 # instances of the same configuration are built from ONE set of input objects (soil, crop, weather table,
                 # management, groundwater, CO2): a model that ran earlier must not leave anything behind in them
                 if inst[i] not in shared_kw:
